@@ -636,7 +636,6 @@ func c05Key(id, desc string) string {
 	return "hostile-input " + stripDigitsAfter(d) + " :: " + strings.SplitN(id, "/", 2)[0]
 }
 
-
 func init() {
 	fw.Register(&fw.Check{
 		ID: "C05", Level: "fault_enumeration", Shards: shards16,
@@ -742,5 +741,3 @@ func init() {
 		},
 	})
 }
-
-
